@@ -6,15 +6,11 @@ import (
 	"runtime/pprof"
 	"time"
 
-	"verif/engine/core"
 	"verif/engine/host"
 )
 
-func limitFamilies(tier string) []*core.Family { return nil }
-func libFamilies(tier string) []*core.Family   { return nil }
-func libExtra() map[string]interface{}         { return nil }
-
-// probeMain: C04_PROBE=file.lua [C04_CPU=n C04_MEM=n] runs one Lua file the way the child does.
+// probeMain: C04_PROBE=file.lua [C04_CPU=n C04_MEM=n C04_PPROF=out] runs one
+// Lua file the way the executor child does (development aid).
 func probeMain(path string) {
 	b, err := os.ReadFile(path)
 	if err != nil {
